@@ -27,15 +27,18 @@ def streams(tier, seed):
         for shift in (True, False):
             zff = rng.choice([1, 1, 2, 3]) if n <= 64 else 1
             conv = rng.random() < 0.5
-            dt = Fraction(1, rng.choice([1, 2, 8, 1024]))
+            # dwell times that are and are not binary fractions (0.1 s, 1 ms, 25 us are not exact doubles)
+            dt = Fraction(1, rng.choice([1, 2, 8, 1024, 10, 1000, 40000, 3]))
             # the time axis need not start at zero (acquisition delay, leading points cut off)
             x0 = rng.choice([Fraction(0), Fraction(0), dt * 8, Fraction(3, 2), -dt * 2])
             a = uniform_new(rng, 0, ["t2"], [n], "t2", x0=x0, dt=dt, cplx=True, attrs=dict(att), dattrs=dict(datt),
                             rand_values=True)
-            out.append([a, op_ft(a, "t2", zff=zff, shift=shift, convert=conv, ppm=400000000 if conv else None)])
+            style = [None, "np", "int"][(n + int(shift)) % 3]     # the flags as builtin bool, numpy.bool_, 0/1
+            out.append([a, op_ft(a, "t2", zff=zff, shift=shift, convert=conv, ppm=400000000 if conv else None, style=style)])
             b = uniform_new(rng, 0, ["f2"], [n], "f2", x0=Fraction(-n // 2), dt=Fraction(1, 4), cplx=True, attrs=dict(att),
                             dattrs=dict(datt), rand_values=True)
-            out.append([b, op_ft(b, "f2", zff=1, shift=shift, convert=conv, inverse=True, ppm=400000000 if conv else None)])
+            out.append([b, op_ft(b, "f2", zff=1, shift=shift, convert=conv, inverse=True, ppm=400000000 if conv else None,
+                              style=style)])
     # N-D: the transformed dimension in every position
     for _ in range(1 if tier == "quick" else 4):
         for dims, shape, dim in shapes_with_dim_everywhere(rng, (2, 3), lo=2, hi=6):
